@@ -139,6 +139,24 @@ def check(tier, seed):
                     res.violation('CFG-VALGET: editing one value changed bytes outside that pair\'s value (or nothing)', {'property': 'C08', 'input': dict(desc, edited=j), 'after': C.hexs(after)}, 'c08-valget-edit')
             except Exception as e:
                 res.violation('CFG-VALGET: editing one value raised ' + type(e).__name__, {'property': 'C08', 'input': dict(desc, edited=j)}, 'c08-valget-edit-exn')
+        # read-modify-write through the message's own edit methods (CFG-GNSS enable/disable of one system): the re-encoded
+        # payload differs from the original exactly in that block's enable bit - whichever position the block has, 0 included
+        from . import c17 as H
+        GN = mt['UbxCfgGnss']['cls']
+        for _ in range(60 if tier == 'quick' else 3000):
+            ids = rng.sample(range(8), rng.randrange(1, 8))
+            blocks = [(g, rng.randrange(16), rng.randrange(32), rng.getrandbits(32) & ~0xFF00) for g in ids]
+            pos = rng.choice([0, 0, len(ids) - 1, rng.randrange(len(ids))])
+            on = not (blocks[pos][3] & 1) if rng.random() < 0.8 else bool(blocks[pos][3] & 1)
+            pay = H.gnss_payload(blocks)
+            fr = GN.construct(bytearray(pay))
+            cmd, impl = H.run_helper(fr, 'enable' if on else 'disable', (ids[pos],))
+            want = H.gnss_payload(H.oracle_enable(blocks, ids[pos], on))
+            desc = {'message': 'UbxCfgGnss', 'payload_hex': C.hexs(pay), 'edit': f'{"enable" if on else "disable"}_gnss({ids[pos]})', 'block_position': pos}
+            cases.append(Case('edit-via-helper', cmd, impl, desc, kind='UbxCfgGnss/helper-edit'))
+            if impl.split(' ')[-1] != C.hexs(want):
+                res.violation('CFG-GNSS read-modify-write through enable/disable: payload differs from the original in other than that block\'s enable bit (or not at all)',
+                              {'property': 'C08', 'input': desc, 'expected_payload': C.hexs(want), 'implementation_says': impl[-300:]}, 'c08-helper-edit')
         # CFG-VALSET: a value changed through the caller's item object after the frame was built is what gets encoded
         from ubxlib.cfgkeys import CfgKeyData as CK_
         from ubxlib.ubx_cfg_valset import UbxCfgValSetAction
